@@ -178,7 +178,17 @@ def run_structured(shape):
             chars.append(46)
             chars += list(ds[nint:])
         chars.append(101 if shape.get('lower', True) else 69)
-        chars.append(S.IntRender(ex, shape.get('plus', False)))
+        zp = shape.get('zeropad')
+        if zp is None:
+            chars.append(S.IntRender(ex, shape.get('plus', False)))
+        else:
+            # zero-padded exponent: [sign] 0{zp} <magnitude>; the magnitude is rendered, the sign is a concrete char
+            esign = shape.get('esign')
+            m.assume(ex >= 0 if esign != '-' else ex <= 0)
+            if esign:
+                chars.append(ord(esign))
+            chars += [48] * zp
+            chars.append(S.IntRender(ex if esign != '-' else -ex, False))
         r = call_parse(m, chars)
         # reference by hand for this shape (the exponent literal must itself fit i128)
         val = 0
@@ -237,6 +247,9 @@ def model_string(t, mdl):
     if sh['nfrac'] or sh.get('dot'):
         s += '.' + ''.join(ds[sh['nint']:])
     e = mdl['ex']
+    if sh.get('zeropad') is not None:
+        s += ('e' if sh.get('lower', True) else 'E') + (sh.get('esign') or '') + '0' * sh['zeropad'] + str(abs(e))
+        return s
     s += ('e' if sh.get('lower', True) else 'E') + (('+' if sh.get('plus') and e >= 0 else '') + str(e))
     return s
 
@@ -340,6 +353,11 @@ def main(tier):
     for sign in (None, '-', '+'):
         for nint, nfrac in [(1, 0), (0, 1), (3, 2), (1, 3), (0, 0), (12, 0), (20, 20)]:
             shapes.append({'sign': sign, 'nint': nint, 'nfrac': nfrac, 'lower': sign != '+', 'plus': sign == '-'})
+    # zero-padded exponents (leading zeros do not change the value; the field can be arbitrarily long)
+    for zp in (1, 2, 17, 18, 19, 20, 21, 39, 40):
+        for esign in (None, '+', '-'):
+            if zp in (1, 19, 20, 21, 40) or esign is None:
+                shapes.append({'sign': None, 'nint': 1, 'nfrac': 1, 'lower': zp % 2 == 0, 'plus': False, 'zeropad': zp, 'esign': esign})
     shapes.append({'sign': None, 'nint': 4, 'nfrac': 2, 'underscore': 1})
     shapes.append({'sign': '-', 'nint': 2, 'nfrac': 0, 'dot': True})
     for sh in shapes:
